@@ -34,16 +34,34 @@ StartOf(cps, i) == IF i <= 1 THEN 0 ELSE StartOf(cps, i - 1) + W(cps[i - 1])
 
 IsScalar(c) == c \in 0..1114111 /\ ~(c \in 55296..57343)
 
+\* The text record is built by divide and conquer over the characters (TLC does not memoise LET-bound
+\* functions, and a recursion as deep as the text is long overflows the stack of the thread that
+\* computes initial states): b bytes, ca code point starting at each byte offset or -1 (1-based
+\* sequence, offset + 1), ix number of characters starting before each offset.
+RECURSIVE MkAux(_, _, _)
+MkAux(cps, lo, hi) ==
+  IF lo > hi THEN [b |-> <<>>, ca |-> <<>>, ix |-> <<>>]
+  ELSE IF lo = hi
+  THEN LET c == cps[lo]
+           w == W(c)
+       IN [b  |-> Utf8(c),
+           ca |-> <<c>> \o [k \in 1..(w - 1) |-> -1],
+           ix |-> <<lo - 1>> \o [k \in 1..(w - 1) |-> lo]]
+  ELSE LET mid == (lo + hi) \div 2
+           l == MkAux(cps, lo, mid)
+           r == MkAux(cps, mid + 1, hi)
+       IN [b |-> l.b \o r.b, ca |-> l.ca \o r.ca, ix |-> l.ix \o r.ix]
+
 MkText(cps) ==
-  LET b  == Bytes(cps)
-      n  == Len(b)
-      st == [i \in 1..(Len(cps) + 1) |-> StartOf(cps, i)]
+  LET a == MkAux(cps, 1, Len(cps))
+      n == Len(a.b)
+      ca == a.ca \o <<-1>>
+      ix == a.ix \o <<Len(cps)>>
   IN [ cps  |-> cps,
-       b    |-> b,
+       b    |-> a.b,
        n    |-> n,
-       cpAt |-> [p \in 0..n |-> IF \E i \in 1..Len(cps) : st[i] = p
-                                THEN cps[CHOOSE i \in 1..Len(cps) : st[i] = p] ELSE -1],
-       idx  |-> [p \in 0..n |-> Cardinality({i \in 1..Len(cps) : st[i] < p})] ]
+       cpAt |-> [p \in 0..n |-> ca[p + 1]],
+       idx  |-> [p \in 0..n |-> ix[p + 1]] ]
 
 \* offsets that start a character, plus the length
 Boundaries(t) == {p \in 0..t.n : p = t.n \/ t.cpAt[p] # -1}
